@@ -18,7 +18,7 @@ from pyvc.api import *
 from pyvc.api import PROTOCOLS
 from pyvc.values import cur, is_none, mk_bool, mk_int
 from contracts.proto_widget import *
-from contracts.C08_focus import CINL, CO, COLUMNS, col_gcs as GCS, item_at, n_items, pile_ri, _missing
+from contracts.C08_focus import CINL, CO, COLUMNS, col_gcs as GCS, item_at, n_items, pile_ri, size_is, _missing
 from contracts.C09_geometry import calls, opt_eq_shift, opt_same
 
 _X = z3.Function("columns$X", z3.IntSort(), z3.IntSort())
@@ -42,22 +42,31 @@ def x_unfold(widths, d, j):
     st.assume(z3.Implies(ok, z3.And(_X(zj) >= 0, _X(zj) <= _X(zj + 1), _X(zj + 1) <= _X(zm))))
 
 
-def x_monotone(m):
-    """Lemma `columns-x-monotone` (a prefix sum of non-negative terms never decreases), for all index pairs."""
-    st = cur()
-    a, b = z3.Int("xm$a"), z3.Int("xm$b")
-    st.assume(z3.ForAll([a, b], z3.Implies(z3.And(0 <= a, a <= b, b <= V._z(m)), _X(a) <= _X(b)), patterns=[z3.MultiPattern(_X(a), _X(b))]))
-    st.assume(_X(z3.IntVal(0)) == 0)
+def x_mono(m, a, b):
+    """Instance of lemma `columns-x-monotone` (a prefix sum of non-negative terms never decreases) at a <= b."""
+    za, zb = V._z(a), V._z(b)
+    cur().assume(z3.Implies(z3.And(0 <= za, za <= zb, zb <= V._z(m)), _X(za) <= _X(zb)))
+    cur().assume(_X(z3.IntVal(0)) == 0)
 
 
 def x_all_visible(widths, d, k):
-    """Lemma `columns-x-linear`: when the columns below k are all visible, X(k) = w_0 + .. + w_{k-1} + k*d."""
+    """Lemma `columns-x-linear` at k: when the columns below k are all visible, X(k) = w_0 + .. + w_{k-1} + k*d."""
     st = cur()
-    vis = forall(0, k, lambda j: Q.seq_get(widths, j) > 0)
+    vis = True if st.ghost.get("columns_all_visible") else forall(0, k, lambda j: Q.seq_get(widths, j) > 0)
     st.assume(implies(both(0 <= k, k <= Q.seq_len(widths), vis), X(k) == widths.psum(k) + k * d))
 
 
+def fit_setup(st, self_obj, vals):
+    """The fit precondition `all_visible` (for all i < m: w_i > 0) is not put into the path condition as a
+    quantified formula while the body is verified: it is instantiated at every index of the widths that is read
+    (C08_focus.col_gcs.apply).  As a call-site precondition (`requires` of a callee) it stays the quantified formula."""
+    st.ghost["columns_all_visible"] = True
+    st.ghost["any_column"] = st.fresh_int("any_column")  # a universally quantified column index for the postconditions
+
+
 def all_visible(widths):
+    if cur().ghost.get("columns_all_visible"):
+        return True
     return forall(0, Q.seq_len(widths), lambda j: Q.seq_get(widths, j) > 0)
 
 
@@ -97,6 +106,7 @@ class columns_rows:
     params = dict(size=SIZE, focus=Bool)
     result = Int
     invariant = staticmethod(pile_ri)
+    setup = staticmethod(fit_setup)
 
     def requires(s, a):
         geo = sizes_of(s, a.size, a.focus)
@@ -180,6 +190,7 @@ class columns_pref_col:
     result = Opt(Int)
     invariant = staticmethod(pile_ri)
     raises = (IndexError,)
+    setup = staticmethod(fit_setup)
 
     def requires(s, a):
         geo = sizes_of(s, a.size, True)
@@ -211,3 +222,82 @@ class columns_pref_col:
         else:
             yield "else-none", is_none(result)
         yield "nothing-written", both(s._contents._focus == fp, n_items(s) == n_items(old), opt_same(s.pref_col, old.pref_col))
+
+
+# ================================================================================================ mouse_event
+
+
+def hit(widths, j, col):
+    """Cell column `col` lies in the columns where child j is drawn."""
+    return both(0 <= j, j < Q.seq_len(widths), X(j) <= col, col < X(j) + Q.seq_get(widths, j))
+
+
+def _mouse_loop(v):
+    """Columns 0 .. i-1 lie entirely to the left of the cell; nothing has been delivered or changed yet."""
+    st = cur()
+    i = v.i_
+    old = v.old.self
+    widths = v.widths
+    m = Q.seq_len(widths)
+    d = old.dividechars
+    J = st.ghost["any_column"]
+    x_unfold(widths, d, i - 1)
+    x_unfold(widths, d, i)
+    x_unfold(widths, d, J)
+    x_mono(m, i, J)
+    x_mono(m, i + 1, J)
+    yield "x-is-the-left-edge-of-column-i", v.x == X(i)
+    yield "cell-is-right-of-the-columns-passed", implies(i > 0, v.col >= v.x - d)
+    yield "cell-is-right-of-any-column-passed", implies(both(0 <= J, J < i), v.col >= X(J) + Q.seq_get(widths, J))
+    yield "focus-flag-untouched", eq(v.focus, v.at_entry.focus)
+    yield "nothing-delivered-yet", len(calls("mouse_event")) == 0
+    yield "focus-not-moved-yet", both(v.self._contents._focus == old._contents._focus, n_items(v.self) == n_items(old), v.self.dividechars == d)
+
+
+@contract(CO + "Columns.mouse_event", property=("C09", "C08"), inline=INL, replayable=False)
+class columns_mouse:
+    """(ii) a mouse event on a cell where child j is drawn goes to child j only, in child coordinates; a divider
+    cell (or a cell right of the last column) reaches nobody; button-1 press on a selectable child focuses it."""
+
+    self_shape = COLUMNS
+    params = dict(size=SIZE, event=Opaque("Key"), button=Int, col=Int, row=Int, focus=Bool)
+    result = Bool
+    invariant = staticmethod(pile_ri)
+    setup = staticmethod(fit_setup)
+
+    def requires(s, a):
+        geo = sizes_of(s, a.size, a.focus)
+        return both(columns_wf(s), size_ok(a.size), all_visible(geo[0]), 0 <= a.col, a.col < a.size[0], 0 <= a.row)
+
+    def ensures(old, s, a, result):
+        st = cur()
+        W = PROTOCOLS["Widget"]
+        geo = sizes_of(old, a.size, a.focus)
+        widths = geo[0]
+        m = Q.seq_len(widths)
+        d = old.dividechars
+        fp = old._contents._focus
+        me = calls("mouse_event")
+        j = st.ghost["any_column"]  # universally quantified: the clauses below hold for every column j
+        x_unfold(widths, d, j)
+        child = item_at(old, j)[0]
+        here = hit(widths, j, a.col)
+        has = W.hasattr(None, st, child, "mouse_event")
+        sel = W.call_quiet(st, child, "selectable", {})
+        press1 = both(is_press(a.event), a.button == 1)
+        nowhere = lambda: forall(0, m, lambda k: neg(hit(widths, k, a.col)))  # noqa: E731
+        yield "at-most-one-child-is-called", len(me) <= 1
+        if me:
+            recv, v, res = me[0][1], me[0][3], me[0][4]
+            yield "delivered-to-the-child-drawn-at-that-cell-in-its-coordinates", implies(
+                here, both(eq(recv, child), size_is(v["size"], Q.seq_get(geo[2].raw, j)), v["col"] == a.col - X(j), v["row"] == a.row, v["button"] == a.button,
+                           eq(v["event"], a.event), eq(v["focus"], both(a.focus, j == fp)), eq(result, res)))
+            yield "delivered-only-to-a-child-drawn-there", neg(nowhere())
+        else:
+            yield "nobody-called-only-on-a-divider-or-a-child-without-handler", both(implies(here, neg(has)), result == False)  # noqa: E712
+        yield "button-1-press-on-a-selectable-child-focuses-it", implies(both(here, press1, sel), s._contents._focus == j)
+        yield "otherwise-the-focus-stays", both(implies(both(here, neg(both(press1, sel))), s._contents._focus == fp),
+                                                implies(nowhere(), s._contents._focus == fp))
+        yield "contents-untouched", n_items(s) == n_items(old)
+
+    loops = {0: Loop(invariant=_mouse_loop)}
